@@ -65,6 +65,13 @@ var corpus = []history{
 	{"attach-name-remove", func() []refcodec.Msg {
 		return tagged(rawpeer.Tattach(0, 1, "d/x"), rawpeer.Tattach(0, 1, "d"), rawpeer.Tattach(0, 2, "d/nope"), rawpeer.Twalk(0, 1, 3, "x"), rawpeer.Tremove(0, 3), rawpeer.Tremove(0, 1))
 	}},
+	// attach names and walks the server REFUSES before or during the walk (empty,
+	// '.', '..' components, a component below a regular file): whatever was
+	// obtained for the refused request must still be closed
+	{"refused-attach-names", func() []refcodec.Msg {
+		return tagged(rawpeer.Tattach(0, 1, "d/"), rawpeer.Tattach(0, 2, "d//x"), rawpeer.Tattach(0, 3, "d/../d"), rawpeer.Tattach(0, 4, "/d/./x"), rawpeer.Tattach(0, 5, "f/x"), rawpeer.Tattach(0, 6, ".."),
+			rawpeer.Tattach(0, 7, "d"), rawpeer.Twalk(0, 7, 8, "x", ".."), rawpeer.Twalk(0, 7, 9, ""), rawpeer.Tclunk(0, 7))
+	}},
 	{"open-readdir", func() []refcodec.Msg {
 		return tagged(rawpeer.Tattach(0, 1, ""), rawpeer.Twalkgetattr(0, 1, 2, "d"), rawpeer.Tlopen(0, 2, 0), rawpeer.Treaddir(0, 2, 0, 4000), rawpeer.Twalk(0, 2, 7, "x"), rawpeer.Tclunk(0, 2))
 	}},
